@@ -29,6 +29,9 @@ func init() {
 			{ID: "R08.3", Template: "T-SIBLING", Text: "slot arithmetic: engines never use len(FunctionType.Params/Results) for stack sizing; the slot counter counts v128 twice", Min: 3},
 			{ID: "R08.4", Template: "T-EXHAUST", Text: "accepted signature kinds = parameter arm kinds = result arm kinds", Min: 1},
 			{ID: "R08.5", Template: "T-REPR", Text: "api.Encode*/Decode* bit-preserving", Min: 10},
+			{ID: "R08.6", Template: "T-WIDTH", Text: "in the backends' ABI code (entry preamble, Go-call trampolines, call-site argument/result moves) an arm labelled with a value type never emits a move narrower than that type", Min: 6},
+			{ID: "R08.7", Template: "T-OWN", Text: "every exported-function lookup yields a freshly allocated call engine (value stack and execution context are per api.Function)", Min: 2},
+			{ID: "R08.8", Template: "T-OWN", Text: "the reflection marshalling writes only the caller's stack or memory allocated in the same call", Min: 1},
 		},
 		Run: runC08,
 		Controls: []core.Control{
@@ -36,6 +39,9 @@ func init() {
 			{Name: "float32-via-float64", File: "internal/wasm/gofunc.go", Old: "stack[i] = uint64(math.Float32bits(ret.Convert(float32Type).Interface().(float32)))", New: "stack[i] = uint64(math.Float32bits(float32(ret.Float())))", Rule: "R08.2", Substr: "result Float32"},
 			{Name: "float32-param-setfloat", File: "internal/wasm/gofunc.go", Old: "val.Set(reflect.ValueOf(math.Float32frombits(uint32(raw))).Convert(next))", New: "val.SetFloat(float64(math.Float32frombits(uint32(raw))))", Rule: "R08.2", Substr: "param Float32"},
 			{Name: "uint32-result-via-int", File: "internal/wasm/gofunc.go", Old: "\t\tcase reflect.Uint32, reflect.Uint64, reflect.Uintptr:\n\t\t\tstack[i] = ret.Uint()", New: "\t\tcase reflect.Uint32:\n\t\t\tstack[i] = uint64(int32(ret.Uint()))\n\t\tcase reflect.Uint64, reflect.Uintptr:\n\t\t\tstack[i] = ret.Uint()", Rule: "R08.1", Substr: "result Uint32"},
+			{Name: "amd64-i64-stack-arg-32bit-load", File: "internal/engine/wazevo/backend/isa/amd64/abi_go_call.go", Old: "\t\t\tcase ssa.TypeI32:\n\t\t\t\tload.asMovzxRmR(extModeLQ, mem, v)\n\t\t\tcase ssa.TypeI64:\n\t\t\t\tload.asMov64MR(mem, v)\n", New: "\t\t\tcase ssa.TypeI32, ssa.TypeI64:\n\t\t\t\tload.asMovzxRmR(extModeLQ, mem, v)\n", Rule: "R08.6", Substr: "amd64"},
+			{Name: "arm64-f64-result-32bit-load", File: "internal/engine/wazevo/backend/isa/arm64/abi_go_call.go", Old: "loadIntoReg.asFpuLoad(r.Reg, mode, 64)", New: "loadIntoReg.asFpuLoad(r.Reg, mode, 32)", Rule: "R08.6", Substr: "arm64"},
+			{Name: "reflect-args-cached-on-function", File: "internal/wasm/gofunc.go", Old: "\tvar in []reflect.Value\n\tpLen := tp.NumIn()\n\tif pLen != 0 {\n\t\tin = make([]reflect.Value, pLen)\n", New: "\tin := sharedIn\n\tpLen := tp.NumIn()\n\tif pLen != 0 {\n", Rule: "R08.8", Substr: "callGoFunc", Old2: "var _ api.GoModuleFunction = (*reflectGoModuleFunction)(nil)", New2: "var _ api.GoModuleFunction = (*reflectGoModuleFunction)(nil)\n\nvar sharedIn = make([]reflect.Value, 16)"},
 			{Name: "results-sized-by-len", File: "internal/engine/interpreter/interpreter.go", Old: "\tif results == nil && ft.ResultNumInUint64 > 0 {\n\t\tresults = make([]uint64, ft.ResultNumInUint64)", New: "\tif results == nil && len(ft.Results) > 0 {\n\t\tresults = make([]uint64, len(ft.Results))", Rule: "R08.3", Substr: "interpreter"},
 			{Name: "v128-counted-once", File: "internal/wasm/module.go", Old: "\t\t\tf.ResultNumInUint64++\n\t\t\tif tp == ValueTypeV128 {\n\t\t\t\tf.ResultNumInUint64++\n\t\t\t}", New: "\t\t\tf.ResultNumInUint64++\n\t\t\t_ = tp", Rule: "R08.3", Substr: "ResultNumInUint64"},
 			{Name: "kind-accepted-but-not-marshalled", File: "internal/wasm/gofunc.go", Old: "\tcase reflect.Int32, reflect.Uint32:\n\t\treturn ValueTypeI32, true", New: "\tcase reflect.Int32, reflect.Uint32, reflect.Int16:\n\t\treturn ValueTypeI32, true", Rule: "R08.4", Substr: "kinds"},
@@ -473,6 +479,10 @@ func runC08(c *core.Ctx) {
 		c.Check(ok, "R08.3", "slot counter "+fld, pos, "one slot per value plus one more for v128", "the slot counter does not count v128 values twice: vector parameters/results overlap their neighbours")
 	}
 
+	checkEmitterWidths(c)
+	checkFreshCallEngine(c)
+	checkMarshalScratch(c)
+
 	// ---- R08.5 api.Encode*/Decode*
 	ap := c.SSAPkg("api")
 	if ap == nil {
@@ -563,4 +573,376 @@ func isCallTo(v ssa.Value, pkg, name string) bool {
 	}
 	f := call.Common().StaticCallee()
 	return f != nil && f.Name() == name && f.Pkg != nil && f.Pkg.Pkg.Path() == pkg
+}
+
+// ---- R08.6 emitter width in the ABI code of the backends ----
+
+var typeBytes = map[string]int{"TypeI32": 4, "TypeF32": 4, "TypeI64": 8, "TypeF64": 8, "TypeV128": 16}
+
+// emitterWidth returns the number of bytes a width-carrying emitter call moves, or 0 when it carries no width.
+func emitterWidth(info *types.Info, call *ast.CallExpr) int {
+	f := core.Callee(info, call)
+	if f == nil {
+		return 0
+	}
+	constArg := func(i int) (int64, bool) {
+		if i < 0 {
+			i = len(call.Args) + i
+		}
+		if i < 0 || i >= len(call.Args) {
+			return 0, false
+		}
+		return core.ConstVal(info, call.Args[i])
+	}
+	identArg := func(i int) string {
+		if i >= len(call.Args) {
+			return ""
+		}
+		switch x := ast.Unparen(call.Args[i]).(type) {
+		case *ast.Ident:
+			return x.Name
+		case *ast.SelectorExpr:
+			return x.Sel.Name
+		}
+		return ""
+	}
+	switch f.Name() {
+	case "asMov64MR", "asMove64":
+		return 8
+	case "asMove32":
+		return 4
+	case "asMovzxRmR", "asMovsxRmR":
+		n := identArg(0)
+		if strings.HasPrefix(n, "extMode") && len(n) == len("extMode")+2 {
+			switch n[len("extMode")] {
+			case 'B':
+				return 1
+			case 'W':
+				return 2
+			case 'L':
+				return 4
+			}
+		}
+	case "asMovRM":
+		if v, ok := constArg(2); ok {
+			return int(v)
+		}
+	case "asMovRR":
+		if id := identArg(2); id == "true" {
+			return 8
+		} else if id == "false" {
+			return 4
+		}
+	case "asXmmUnaryRmR", "asXmmMovRM":
+		switch n := identArg(0); {
+		case strings.HasSuffix(n, "Movss"):
+			return 4
+		case strings.HasSuffix(n, "Movsd"):
+			return 8
+		case strings.HasSuffix(n, "Movdqu"), strings.HasSuffix(n, "Movdqa"), strings.HasSuffix(n, "Movups"), strings.HasSuffix(n, "Movaps"):
+			return 16
+		}
+	case "asULoad", "asSLoad", "asFpuLoad", "asStore":
+		if v, ok := constArg(-1); ok && v%8 == 0 {
+			return int(v / 8)
+		}
+	case "asFpuMov64":
+		return 8
+	case "asFpuMov128":
+		return 16
+	}
+	return 0
+}
+
+func checkEmitterWidths(c *core.Ctx) {
+	total := 0
+	for _, rel := range []string{"internal/engine/wazevo/backend/isa/amd64", "internal/engine/wazevo/backend/isa/arm64"} {
+		p := c.Pkg(rel)
+		if p == nil {
+			continue
+		}
+		isa := rel[strings.LastIndex(rel, "/")+1:]
+		core.AllFuncDecls(p, func(fd *ast.FuncDecl) {
+			file := c.Fset.Position(fd.Pos()).Filename
+			if !strings.HasPrefix(file[strings.LastIndex(file, "/")+1:], "abi") {
+				return
+			}
+			var bad []string
+			n := 0
+			ast.Inspect(fd.Body, func(x ast.Node) bool {
+				sw, ok := x.(*ast.SwitchStmt)
+				if !ok || sw.Tag == nil {
+					return true
+				}
+				tv := p.TypesInfo.Types[sw.Tag]
+				if nt := core.NamedOf(tv.Type); nt == nil || nt.Obj().Name() != "Type" || !strings.HasSuffix(nt.Obj().Pkg().Path(), "/wazevo/ssa") {
+					return true
+				}
+				for _, s := range sw.Body.List {
+					cc := s.(*ast.CaseClause)
+					need := 0
+					var labels []string
+					for _, l := range cc.List {
+						if se, ok := ast.Unparen(l).(*ast.SelectorExpr); ok {
+							if b, ok := typeBytes[se.Sel.Name]; ok {
+								labels = append(labels, se.Sel.Name)
+								if b > need {
+									need = b
+								}
+							}
+						}
+					}
+					if need == 0 {
+						continue
+					}
+					for _, st := range cc.Body {
+						ast.Inspect(st, func(y ast.Node) bool {
+							if _, nested := y.(*ast.SwitchStmt); nested {
+								return false
+							}
+							call, ok := y.(*ast.CallExpr)
+							if !ok {
+								return true
+							}
+							if w := emitterWidth(p.TypesInfo, call); w > 0 {
+								n++
+								if w < need {
+									bad = append(bad, fmt.Sprintf("arm %s emits a %d-byte move `%s` at %s but the type needs %d bytes: the upper part of the value is lost", strings.Join(labels, ","), w, core.ExprStr(call.Fun), c.Pos(call.Pos()), need))
+								}
+							}
+							return true
+						})
+					}
+				}
+				return true
+			})
+			if n > 0 {
+				total += n
+				c.Check(len(bad) == 0, "R08.6", isa+" "+core.FuncName(p, fd), fd.Pos(), fmt.Sprintf("%d width-carrying emitter calls, none narrower than its type arm", n), strings.Join(bad, "; "))
+			}
+		})
+	}
+	c.Count("abi_emitter_sites", total)
+}
+
+// ---- R08.7 fresh call engine per lookup ----
+
+func checkFreshCallEngine(c *core.Ctx) {
+	wp := c.Pkg("internal/wasm")
+	mi, _ := wp.Types.Scope().Lookup("ModuleInstance").Type().(*types.Named)
+	if mi == nil {
+		return
+	}
+	for _, name := range []string{"ExportedFunction"} {
+		obj := core.ImplMethod(wp.Types, mi, name)
+		fn := c.SSA().FuncValue(obj)
+		if fn == nil {
+			c.Undecided("R08.7", "ModuleInstance."+name, 0, "method not found")
+			continue
+		}
+		bad := ""
+		var check func(v ssa.Value, depth int) bool
+		seen := map[ssa.Value]bool{}
+		check = func(v ssa.Value, depth int) bool {
+			if seen[v] || depth > 8 {
+				return true
+			}
+			seen[v] = true
+			switch x := v.(type) {
+			case *ssa.Const:
+				return true
+			case *ssa.Phi:
+				for _, e := range x.Edges {
+					if !check(e, depth+1) {
+						return false
+					}
+				}
+				return true
+			case *ssa.MakeInterface:
+				return check(x.X, depth+1)
+			case *ssa.ChangeInterface:
+				return check(x.X, depth+1)
+			case *ssa.Call:
+				cc := x.Common()
+				if cc.IsInvoke() && cc.Method.Name() == "NewFunction" {
+					return true
+				}
+				if callee := cc.StaticCallee(); callee != nil && core.InModule(callee) && callee.Blocks != nil {
+					for _, b := range callee.Blocks {
+						for _, in := range b.Instrs {
+							if r, ok := in.(*ssa.Return); ok && len(r.Results) > 0 {
+								if !check(r.Results[0], depth+1) {
+									return false
+								}
+							}
+						}
+					}
+					return true
+				}
+			case *ssa.Alloc:
+				return true
+			}
+			bad = fmt.Sprintf("returns a value that is not a fresh ModuleEngine.NewFunction result (%T at %s): a cached api.Function shares one call engine (value stack, execution context) between re-entrant or concurrent callers", v, c.Pos(v.Pos()))
+			return false
+		}
+		ok := true
+		for _, b := range fn.Blocks {
+			for _, in := range b.Instrs {
+				if r, isR := in.(*ssa.Return); isR && len(r.Results) > 0 {
+					if !check(r.Results[0], 0) {
+						ok = false
+					}
+				}
+			}
+		}
+		c.Check(ok, "R08.7", "ModuleInstance."+name+" returns a fresh call engine", fn.Pos(), "every result is nil or a new ModuleEngine.NewFunction value", bad)
+	}
+	// each engine's NewFunction allocates
+	_, me := lookupIface(c, "internal/wasm", "ModuleEngine")
+	for _, rel := range []string{"internal/engine/interpreter", "internal/engine/wazevo"} {
+		p := c.Pkg(rel)
+		if p == nil || me == nil {
+			continue
+		}
+		for _, n := range p.Types.Scope().Names() {
+			tn, ok := p.Types.Scope().Lookup(n).(*types.TypeName)
+			if !ok {
+				continue
+			}
+			named, _ := tn.Type().(*types.Named)
+			if named == nil || !types.Implements(types.NewPointer(named), me) {
+				continue
+			}
+			fn := c.SSA().FuncValue(core.ImplMethod(p.Types, named, "NewFunction"))
+			if fn == nil || fn.Blocks == nil {
+				continue
+			}
+			ok2 := true
+			why := ""
+			for _, b := range fn.Blocks {
+				for _, in := range b.Instrs {
+					if r, isR := in.(*ssa.Return); isR && len(r.Results) > 0 {
+						v := r.Results[0]
+						for {
+							if mi, isMI := v.(*ssa.MakeInterface); isMI {
+								v = mi.X
+								continue
+							}
+							break
+						}
+						switch x := v.(type) {
+						case *ssa.Alloc:
+						case *ssa.Call:
+							if x.Common().IsInvoke() && x.Common().Method.Name() == "NewFunction" {
+								continue // delegated to the exporting module's engine: fresh by the same rule
+							}
+							if sc := x.Common().StaticCallee(); sc != nil && sc == fn {
+								continue // same, statically resolved (imported function of the same engine type)
+							}
+							callee := x.Common().StaticCallee()
+							okc := false
+							if callee != nil && callee.Blocks != nil {
+								okc = true
+								for _, bb := range callee.Blocks {
+									for _, ii := range bb.Instrs {
+										if rr, isRR := ii.(*ssa.Return); isRR && len(rr.Results) > 0 {
+											if _, isAlloc := rr.Results[0].(*ssa.Alloc); !isAlloc {
+												if rc, isCall := rr.Results[0].(*ssa.Call); !isCall || rc.Common().StaticCallee() != callee {
+													okc = false
+												}
+											}
+										}
+									}
+								}
+							}
+							if !okc {
+								ok2 = false
+								why = "NewFunction returns the result of a call that does not allocate a new call engine"
+							}
+						default:
+							ok2 = false
+							why = fmt.Sprintf("NewFunction returns a %T, not a newly allocated call engine", v)
+						}
+					}
+				}
+			}
+			c.Check(ok2, "R08.7", rel[strings.LastIndex(rel, "/")+1:]+" NewFunction allocates a call engine", fn.Pos(), "every result is a fresh allocation", why)
+		}
+	}
+}
+
+// ---- R08.8 marshalling writes only per-call memory ----
+
+func checkMarshalScratch(c *core.Ctx) {
+	wp := c.SSAPkg("internal/wasm")
+	if wp == nil {
+		return
+	}
+	n := 0
+	for _, fn := range moduleFns(c, "internal/wasm") {
+		// functions of the reflection path: those that call reflect.Value.Call, and the Call methods of types holding a *reflect.Value
+		uses := false
+		for _, b := range fn.Blocks {
+			for _, in := range b.Instrs {
+				if call, ok := in.(ssa.CallInstruction); ok {
+					if f := call.Common().StaticCallee(); f != nil && f.Name() == "Call" && f.Pkg != nil && f.Pkg.Pkg.Path() == "reflect" {
+						uses = true
+					}
+				}
+			}
+		}
+		if !uses {
+			continue
+		}
+		n++
+		var bad []string
+		for _, b := range fn.Blocks {
+			for _, in := range b.Instrs {
+				st, ok := in.(*ssa.Store)
+				if !ok {
+					continue
+				}
+				ia, ok := st.Addr.(*ssa.IndexAddr)
+				if !ok {
+					continue
+				}
+				base := ia.X
+				for {
+					if sl, ok := base.(*ssa.Slice); ok {
+						base = sl.X
+						continue
+					}
+					break
+				}
+				switch x := base.(type) {
+				case *ssa.MakeSlice, *ssa.Alloc:
+				case *ssa.Parameter:
+					// only the caller's []uint64 stack may be written; any other slice handed in is shared state
+					if sl, isSl := x.Type().Underlying().(*types.Slice); !isSl || basicKind(sl.Elem()) != types.Uint64 {
+						bad = append(bad, fmt.Sprintf("element store at %s into parameter %s (%s), which is not the caller's value stack: scratch memory passed in from a long-lived object is shared between concurrent or re-entrant host calls", c.Pos(st.Pos()), x.Name(), x.Type()))
+					}
+				case *ssa.Phi:
+					okp := true
+					for _, e := range x.Edges {
+						switch ee := e.(type) {
+						case *ssa.MakeSlice, *ssa.Alloc, *ssa.Parameter:
+						case *ssa.Const:
+							_ = ee
+						default:
+							okp = false
+						}
+					}
+					if !okp {
+						bad = append(bad, fmt.Sprintf("element store at %s into a slice that is neither the caller's stack nor allocated in this call", c.Pos(st.Pos())))
+					}
+				default:
+					bad = append(bad, fmt.Sprintf("element store at %s into a slice loaded from shared state (%T): concurrent or re-entrant host calls overwrite each other's arguments", c.Pos(st.Pos()), base))
+				}
+			}
+		}
+		c.Check(len(bad) == 0, "R08.8", "per-call scratch in "+core.SSAFuncName(fn), fn.Pos(), "every element store targets the caller's stack or memory allocated in this call", strings.Join(bad, "; "))
+	}
+	if n == 0 {
+		c.Undecided("R08.8", "marshalling function", 0, "no function of internal/wasm calls reflect.Value.Call")
+	}
 }
